@@ -5,6 +5,7 @@ CONSTANTS
   Conts <- cConts
   MaxList = 3
   MaxNodes = 6
+  PairNodes = 0
   PathNames = {"a", "b", "*", "z"}
   IdxNames = {"a", "b"}
   MaxIdx = 2
